@@ -1,33 +1,49 @@
 (* Property C16 -- GEVP and matrix pencil satisfy the eigen-equation and recover exact spectra.  Theorems only. *)
 From Coq Require Import ZArith QArith List Bool.
-From PV Require Import Base.QAux Lin.Mat Corr.Gevp.
+From PV Require Import Base.QAux Lin.Mat Corr.Gevp Corr.Pencil.
 Import ListNotations.
 Open Scope Q_scope.
 
-(* For a correlator matrix with an exact spectrum G(t) = sum_m d_m(t) z_m z_m^T (any number of operators and states), the vector
+(* For a correlator matrix with an exact spectrum G(t) = sum_m d_m(t) u_m z_m^T (u_m = z_m for a symmetric matrix; any number of operators and states), the vector
    dual to state s solves the generalised eigenvalue problem with eigenvalue d_s(t) / d_s(t0)  [= exp(-E_s (t - t0))]:
    d_s(t0) G(t) v = d_s(t) G(t0) v, entry by entry -- for every t, hence the vector is the same on all timeslices *)
 Theorem exact_spectrum_dual_vector_solves_the_gevp :
   forall (pre post : list state) (s : state) (n : nat) (v : vec),
-  Forall (fun r => List.length (sz r) = n /\ dotv (sz r) v == 0) pre ->
-  Forall (fun r => List.length (sz r) = n /\ dotv (sz r) v == 0) post ->
-  List.length (sz s) = n ->
+  Forall (fun r => List.length (su r) = n /\ dotv (sz r) v == 0) pre ->
+  Forall (fun r => List.length (su r) = n /\ dotv (sz r) v == 0) post ->
+  List.length (su s) = n ->
   veq (vscal (sd0 s) (G_apply (pre ++ s :: post) n v)) (vscal (sd s) (G0_apply (pre ++ s :: post) n v)).
 Proof. exact dual_vector_solves_gevp. Qed.
 
 (* ... and its projected correlator is the single exponential of that state: v . G(t) v = d_s(t) (z_s . v)^2 *)
 Theorem exact_spectrum_projection_is_a_single_exponential :
   forall (pre post : list state) (s : state) (n : nat) (v : vec),
-  Forall (fun r => List.length (sz r) = n /\ dotv (sz r) v == 0) pre ->
-  Forall (fun r => List.length (sz r) = n /\ dotv (sz r) v == 0) post ->
-  List.length (sz s) = n ->
-  dotv v (G_apply (pre ++ s :: post) n v) == sd s * (dotv (sz s) v * dotv (sz s) v).
+  Forall (fun r => List.length (su r) = n /\ dotv (sz r) v == 0) pre ->
+  Forall (fun r => List.length (su r) = n /\ dotv (sz r) v == 0) post ->
+  List.length (su s) = n ->
+  dotv v (G_apply (pre ++ s :: post) n v) == sd s * (dotv (sz s) v * dotv (su s) v).
 Proof. exact dual_vector_projects_single_state. Qed.
+
+(* Matrix-pencil method: for an exact multi-exponential signal c(t) = sum_m a_m lambda_m^t the Hankel matrices Y1[i][j] = c(i+j) and
+   Y2[i][j] = c(i+j+1) (any shape n x p) are sum_m a_m u_m w_m^T and sum_m (a_m lambda_m) u_m w_m^T with Vandermonde vectors ... *)
+Theorem hankel_matrices_have_the_spectral_form :
+  forall (modes : list (Q * Q)) (n p : nat) (v : vec),
+  veq (hankel_apply (signal modes) 0 n p v) (G0_apply (pencil_states modes n p) n v)
+  /\ veq (hankel_apply (signal modes) 1 n p v) (G_apply (pencil_states modes n p) n v).
+Proof. exact hankel_is_spectral. Qed.
+
+(* ... hence every lambda_s = exp(-E_s) is a generalised eigenvalue of the pencil: a_s (Y2 v) = (a_s lambda_s) (Y1 v) for the vector dual to mode s *)
+Theorem matrix_pencil_recovers_the_decay_factors :
+  forall (pre post : list (Q * Q)) (m : Q * Q) (n p : nat) (v : vec),
+  Forall (fun r => dotv (vander (snd r) p) v == 0) (pre ++ post) ->
+  veq (vscal (fst m) (hankel_apply (signal (pre ++ m :: post)) 1 n p v))
+      (vscal (fst m * snd m) (hankel_apply (signal (pre ++ m :: post)) 0 n p v)).
+Proof. exact matrix_pencil_eigenvalue. Qed.
 
 (* Non-vacuity: two states z_0 = (1, 1), z_1 = (1, -1) with weights (1/2, 1/8) at t and (1, 1/2) at t0; v = (1, 1) is dual to state 0 *)
 Example c16_example :
-  let s0 := mkState [1; 1] (1 # 2) 1 in let s1 := mkState [1; -1] (1 # 8) (1 # 2) in
-  Forall (fun r => List.length (sz r) = 2%nat /\ dotv (sz r) [1; 1] == 0) [s1]
+  let s0 := mkState [1; 1] [1; 1] (1 # 2) 1 in let s1 := mkState [1; -1] [1; -1] (1 # 8) (1 # 2) in
+  Forall (fun r => List.length (su r) = 2%nat /\ dotv (sz r) [1; 1] == 0) [s1]
   /\ G_apply [s0; s1] 2 [1; 1] = [1; 1] /\ G0_apply [s0; s1] 2 [1; 1] = [2; 2]
   /\ gevp_eq_ok (1 # 1000) [[5 # 8; 3 # 8]; [3 # 8; 5 # 8]] [[3 # 2; 1 # 2]; [1 # 2; 3 # 2]] [1; 1] = true
   /\ gevp_eq_ok (1 # 1000) [[5 # 8; 3 # 8]; [3 # 8; 5 # 8]] [[3 # 2; 1 # 2]; [1 # 2; 3 # 2]] [1; 0] = false.
@@ -35,3 +51,5 @@ Proof. repeat split; try (vm_compute; reflexivity). repeat constructor. Qed.
 
 Print Assumptions exact_spectrum_dual_vector_solves_the_gevp.
 Print Assumptions exact_spectrum_projection_is_a_single_exponential.
+Print Assumptions hankel_matrices_have_the_spectral_form.
+Print Assumptions matrix_pencil_recovers_the_decay_factors.
